@@ -17,7 +17,7 @@ use std::sync::{Arc, Mutex};
 use std::time::{Duration, Instant};
 
 #[derive(Clone, Debug)]
-pub struct Case { pub lens: Vec<usize>, pub cuts: Vec<usize>, pub gap: u64, pub end: String, pub endpack: bool, pub inputs: bool }
+pub struct Case { pub lens: Vec<usize>, pub cuts: Vec<usize>, pub gap: u64, pub end: String, pub endpack: bool, pub inputs: bool, pub act: u8 }
 
 /// PDU i: a fast-path bitmap update with one raw 32 bpp rectangle of `n` pixels in a row, dest_left = i
 /// `n` = pixels + 100 * variant: variant 1 puts a zero-length update (synchronize) in front of
@@ -51,7 +51,7 @@ fn end_bytes(mode: &str) -> Vec<u8> {
     }
 }
 
-pub struct Outcome { pub silent: Vec<u16>, pub fin: Vec<u16>, pub exited: bool, pub status: String, pub lens: Vec<usize>, pub quiet: Vec<usize>, pub inputs_done: usize, pub inputs_asked: bool }
+pub struct Outcome { pub silent: Vec<u16>, pub fin: Vec<u16>, pub exited: bool, pub status: String, pub lens: Vec<usize>, pub quiet: Vec<usize>, pub inputs_done: usize, pub inputs_asked: bool, pub alens: Vec<usize> }
 
 pub fn run(c: &Case) -> Outcome {
     let mut pdus: Vec<Vec<u8>> = vec![]; let mut quiet: Vec<usize> = vec![];
@@ -72,15 +72,22 @@ pub fn run(c: &Case) -> Outcome {
     if !c.endpack && !endb.is_empty() { script.push(Act::Send(endb.clone())); }
     match c.end.as_str() { "notify" => { script.push(Act::CloseNotify); script.push(Act::Pause(50)); script.push(Act::Close); } "close" => script.push(Act::Close), _ => {} }
     let cfg = Cfg { w: 800, h: 600, lay: 0x409, name: "rdp-rs".into(), dom: "d".into(), user: "u".into(), pw: "p".into(), hash: false, ra: false, blank: false, auto: false, nla: false, check: false };
-    let srv = SrvCfg { sel: 0, id: 1, uid: 1004, version: 0x80004, license_new: false, share: 0x103ea, caps: conn::default_caps(), source: b"RDP\0".to_vec(), chal_flags: 0, inputs: vec![], script, reactivate: None, reuse: 0, jrefuse: 0, ber: 0 };
+    // act: 0 = the session is activated before the receive thread starts; 1..3 = the thread itself runs the
+    // activation (as in the GUI client's main), with a demand-active of < 128, 128..255 and > 255 bytes
+    let mut caps = conn::default_caps();
+    if c.act == 2 { caps.push(refsrv::cap(9, &vec![0u8; 100])); }
+    if c.act == 3 { caps.push(refsrv::cap(9, &vec![0u8; 300])); }
+    let da_len = refsrv::mcs_sdin(1003, &refsrv::demand_active(0x103ea, b"RDP\0", &caps)).len();
+    let alens: Vec<usize> = if c.act == 0 { vec![] } else { let mut v = vec![da_len]; for b in &[refsrv::synchronize(0x103ea, 1002), refsrv::control(0x103ea, 4, 0, 0), refsrv::control(0x103ea, 2, 1004, 0x03ea), refsrv::font_map(0x103ea)] { v.push(refsrv::mcs_sdin(1003, b).len()); } v };
+    let srv = SrvCfg { sel: 0, id: 1, uid: 1004, version: 0x80004, license_new: false, share: 0x103ea, caps, source: b"RDP\0".to_vec(), chal_flags: 0, inputs: vec![], script, reactivate: None, reuse: 0, jrefuse: 0, ber: 0 };
     let (a, b) = UnixStream::pair().expect("socketpair");
     let fd = a.as_raw_fd() as usize;
     let rawlog = Arc::new(Mutex::new(vec![]));
     let th = std::thread::spawn(move || conn::serve(b, srv, vec![0; 16], rawlog));
-    let mut out = Outcome { silent: vec![], fin: vec![], exited: false, status: "ok".into(), lens, quiet, inputs_done: 0, inputs_asked: c.inputs };
+    let mut out = Outcome { silent: vec![], fin: vec![], exited: false, status: "ok".into(), lens, quiet, inputs_done: 0, inputs_asked: c.inputs, alens };
     let mut con = Connector::new().screen(cfg.w, cfg.h).credentials(cfg.dom.clone(), cfg.user.clone(), cfg.pw.clone()).use_nla(false).layout(conn::layout_of(cfg.lay)).name(cfg.name.clone());
     let mut client = match con.connect(a) { Ok(c) => c, Err(e) => { out.status = format!("E@connect:{:?}", e); let _ = th.join(); return out; } };
-    for i in 0..5 { if let Err(e) = client.read(|_| {}) { out.status = format!("E@read{}:{:?}", i, e); drop(client); let _ = th.join(); return out; } }
+    if c.act == 0 { for i in 0..5 { if let Err(e) = client.read(|_| {}) { out.status = format!("E@read{}:{:?}", i, e); drop(client); let _ = th.join(); return out; } } }
     let t0 = Instant::now();
     let shared = Arc::new(Mutex::new(client));
     let sync = Arc::new(AtomicBool::new(true));
@@ -118,14 +125,14 @@ pub fn run(c: &Case) -> Outcome {
 
 fn show(v: &[u16]) -> String { if v.is_empty() { "-".into() } else { v.iter().map(|x| x.to_string()).collect::<Vec<_>>().join(".") } }
 
-pub fn line_of(c: &Case, lens: &[usize], quiet: &[usize]) -> String {
-    format!("gui lens={} cuts={} gap={} end={} endpack={} inputs={} plens={} quiet={}", c.lens.iter().map(|x| x.to_string()).collect::<Vec<_>>().join(","),
+pub fn line_of(c: &Case, lens: &[usize], quiet: &[usize], alens: &[usize]) -> String {
+    format!("gui act={} alens={} lens={} cuts={} gap={} end={} endpack={} inputs={} plens={} quiet={}", c.act, if alens.is_empty() { "-".to_string() } else { alens.iter().map(|x| x.to_string()).collect::<Vec<_>>().join(",") }, c.lens.iter().map(|x| x.to_string()).collect::<Vec<_>>().join(","),
         if c.cuts.is_empty() { "-".into() } else { c.cuts.iter().map(|x| x.to_string()).collect::<Vec<_>>().join(",") }, c.gap, c.end, c.endpack as u8, c.inputs as u8,
         lens.iter().map(|x| x.to_string()).collect::<Vec<_>>().join(","), if quiet.is_empty() { "-".to_string() } else { quiet.iter().map(|x| x.to_string()).collect::<Vec<_>>().join(",") })
 }
 
 fn emit_outcome(em: &mut Emitter, c: &Case, o: Outcome) {
-    let line = line_of(c, &o.lens, &o.quiet);
+    let line = line_of(c, &o.lens, &o.quiet, &o.alens);
     let inp = if !o.inputs_asked { "-" } else if o.inputs_done > 0 { "ok" } else { "blocked" };
     let out = if o.status == "ok" { format!("silent={} final={} exit={} in={}", show(&o.silent), show(&o.fin), if o.exited { "yes" } else { "no" }, inp) } else { o.status.clone() };
     let mut obs = Obs::new(out).nt(o.status == "ok").tag(Box::leak(c.end.clone().into_boxed_str()));
@@ -136,8 +143,8 @@ fn emit_outcome(em: &mut Emitter, c: &Case, o: Outcome) {
 pub fn run_case(toks: &[&str], em: &mut Emitter) {
     let get = |k: &str| -> String { toks.iter().find(|x| x.starts_with(&format!("{}=", k))).map(|x| x[k.len() + 1..].to_string()).unwrap_or_default() };
     let list = |k: &str| -> Vec<usize> { get(k).split(',').filter_map(|x| x.parse().ok()).collect() };
-    let c = Case { lens: list("lens"), cuts: list("cuts"), gap: get("gap").parse().unwrap_or(0), end: get("end"), endpack: get("endpack") == "1", inputs: get("inputs") == "1" };
-    watch_begin(&line_of(&c, &[], &[]));
+    let c = Case { lens: list("lens"), cuts: list("cuts"), gap: get("gap").parse().unwrap_or(0), end: get("end"), endpack: get("endpack") == "1", inputs: get("inputs") == "1", act: get("act").parse().unwrap_or(0) };
+    watch_begin(&line_of(&c, &[], &[], &[]));
     let o = run(&c);
     emit_outcome(em, &c, o);
 }
@@ -163,7 +170,7 @@ pub fn generate(thorough: bool, seed: u64, part: (usize, usize), em: &mut Emitte
             };
             for endpack in &[false, true] {
                 if *endpack && (*end == "notify" || *end == "close") { continue; }
-                cases.push(Case { lens: lens.clone(), cuts: cuts.clone(), gap, end: end.to_string(), endpack: *endpack, inputs: fam % 2 == 1 });
+                cases.push(Case { lens: lens.clone(), cuts: cuts.clone(), gap, end: end.to_string(), endpack: *endpack, inputs: fam % 2 == 1, act: ((fam + 2 * ei + *endpack as usize) % 4) as u8 });
             }
         }
     }
@@ -175,13 +182,13 @@ pub fn generate(thorough: bool, seed: u64, part: (usize, usize), em: &mut Emitte
         let total: usize = lens.iter().map(|x| pdu(0, *x).len()).sum();
         let nc = r.below(5) as usize;
         let cuts: Vec<usize> = (0..nc).map(|_| r.range(1, total as u64 - 1) as usize).collect();
-        cases.push(Case { lens, cuts, gap: *r.pick(&[0u64, 0, 10, 30]), end: r.pick(&ends).to_string(), endpack: r.chance(1, 4), inputs: r.chance(1, 2) });
+        cases.push(Case { lens, cuts, gap: *r.pick(&[0u64, 0, 10, 30]), end: r.pick(&ends).to_string(), endpack: r.chance(1, 4), inputs: r.chance(1, 2), act: r.below(4) as u8 });
     }
     let mine: Vec<Case> = cases.into_iter().enumerate().filter(|(i, _)| i % part.1 == part.0).map(|(_, c)| c).collect();
     // the cases are timing-bound, not CPU-bound: run them concurrently
     let width = 24;
     for chunk in mine.chunks(width) {
-        if let Some(c0) = chunk.first() { watch_begin(&line_of(c0, &[], &[])); }
+        if let Some(c0) = chunk.first() { watch_begin(&line_of(c0, &[], &[], &[])); }
         let hs: Vec<_> = chunk.iter().cloned().map(|c| std::thread::spawn(move || { let o = run(&c); (c, o) })).collect();
         let results: Vec<_> = hs.into_iter().filter_map(|h| h.join().ok()).collect();
         watch_end();
